@@ -344,6 +344,11 @@ def linform(t, angle=True):
         f = linform(const(c0), angle)
         rest = []
         for c, a in zip(coefs, t.args):
+            if angle and a.op == "floordiv":
+                # x % (2 pi j) = x - 2 pi j k with k an integer: invisible to cos and sin
+                m = _pi_multiple(c)
+                if m is not None and m.denominator == 1 and m.numerator % 2 == 0:
+                    continue
             if a.op in _LINEAR_BASES or a is PI:
                 f = f.plus(linform(a, angle).scaled(c))
             else:
@@ -474,6 +479,31 @@ def atan2(y, x):
     return _mk("atan2", (y, x))
 
 
+def is_nonneg(t):
+    """syntactic sufficient condition for t >= 0"""
+    if t.op == "const":
+        return t.val >= 0
+    if t.op == "sqrt":
+        return True
+    if t.op == "mul":
+        return all(e % 2 == 0 or is_nonneg(a) for e, a in zip(t.val, t.args))
+    if t.op == "add":
+        c0, coefs = t.val
+        return c0 >= 0 and all(c >= 0 and is_nonneg(a) for c, a in zip(coefs, t.args))
+    if t.op == "ite":
+        return is_nonneg(t.args[1]) and is_nonneg(t.args[2])
+    return False
+
+
+def atan_quot(n, d):
+    """atan(n/d) for d > 0 (kept as a pair so that no auxiliary quotient variable is needed)"""
+    if d.op == "const":
+        return unary_atom("atan", scale(1 / d.val, n))
+    if n.op == "const" and n.val == 0:
+        return ZERO
+    return _mk("atan", (n, d))
+
+
 def unary_atom(op, x):
     """atan, asinh, acosh, acos, asin, log"""
     if x.op == "const":
@@ -579,7 +609,7 @@ def evaluate(roots, env):
             v = a[0] / a[1]
         elif op in ("atan", "asinh", "acosh", "acos", "asin", "log"):
             try:
-                v = getattr(math, op)(a[0])
+                v = getattr(math, op)(a[0] if len(a) == 1 else a[0] / a[1])
             except ValueError as e:
                 raise EvalError(str(e))
         elif op == "floordiv":
